@@ -125,7 +125,7 @@ static bool IsLess(const Char_T *left, const Char_T *right, SizeT left_length, S
         ++offset;
     }
 
-    return (orEqual & (left_length == right_length));
+    return ((left_length < right_length) | (orEqual & (left_length == right_length)));
 }
 
 template <typename Char_T>
@@ -145,7 +145,7 @@ static bool IsGreater(const Char_T *left, const Char_T *right, SizeT left_length
         ++offset;
     }
 
-    return (orEqual & (left_length == right_length));
+    return ((left_length > right_length) | (orEqual & (left_length == right_length)));
 }
 
 template <typename Char_T>
